@@ -81,8 +81,13 @@ pub fn run(cfg: &Cfg) {
                 if matches!(sc.strat, Strat1::Linear) {
                     let data: ArrayD<f64> = make_data::<f64>(&sc.rows, &sc.trail);
                     let x = Array1::from(ax.clone());
-                    let interp = Interp1DBuilder::new(data).x(x).strategy(Linear::new()).build().unwrap();
+                    let interp_main = Interp1DBuilder::new(data).x(x.clone()).strategy(Linear::new()).build().unwrap();
+                    // the same axis with data that has a zero-length trailing axis: no lane to write, but the
+                    // query must still be refused
+                    let zshape: Vec<usize> = if ci % 2 == 0 { vec![ax.len(), 0] } else { vec![ax.len(), 2, 0] };
+                    let interp_zero = Interp1DBuilder::new(ArrayD::<f64>::zeros(IxDyn(&zshape))).x(x).strategy(Linear::new()).build().unwrap();
                     let good = ax[0] + (ax[ax.len() - 1] - ax[0]) * 0.5;
+                    for interp in [&interp_main, &interp_zero] {
                     for bad in [f64::NAN, next_up(ax[ax.len() - 1]), f64::NEG_INFINITY] {
                         for pos in 0..4 {
                             let mut v = vec![good, ax[0], ax[ax.len() - 1], good];
@@ -104,6 +109,7 @@ pub fn run(cfg: &Cfg) {
                                          obj(vec![("scenario", sc.to_json())]));
                             }
                         }
+                    }
                     }
                 }
                 if ci < 2 { rep.sample(obj(vec![("scenario", sc.to_json()), ("outcomes", J::A(rf.1.iter().map(|o| s(kind(o))).collect()))])); }
